@@ -207,7 +207,10 @@ def _extract_items(src, names, drop_variants):
         if not allf:
             raise Unsupported(f'lost anchor: item {nm} not found')
         for it in allf:
-            out.append(src[it.attrs_start:it.end])
+            if it.kind == 'mod' and it.body_open is not None:
+                out.append(src[it.attrs_start:it.body_open + 1] + '\n#[allow(unused_imports)] use crate::*;\n' + src[it.body_open + 1:it.end])
+            else:
+                out.append(src[it.attrs_start:it.end])
     text = '\n\n'.join(out)
     return text
 
